@@ -273,6 +273,57 @@ pub fn run(ctx: &mut Ctx) {
     more.sort_by_key(|c| std::cmp::Reverse(c.0.size));
     let nm = more.len();
     ctx.run_par(&SUB_SET, more, Some(&format!("all {} D-sets with {}..={} chambers listed by the crate's D-set generator x 4 geometries", nm, maxn + 1, deep)));
+    // D-sets that no enumeration by size reaches: flag sets of maps on the sphere and the torus (finite
+    // universal covers of spherical symbols, toroidal covers of euclidean ones) and low-index covers of
+    // small symbols, 16 to 48 chambers. The crate's cover routines are only a SOURCE of inputs here
+    // (every D-set is re-validated by the table model; covers are C05's business).
+    ctx.layer("cover-dsets");
+    {
+        use rayon::prelude::*;
+        let small = dsets_up_to(2, t.pick(4, 5));
+        let mut bases: Vec<DS> = vec![];
+        for ds in &small {
+            bases.extend(assignments(ds, 5, t.pick(40, 200)).0);
+        }
+        let max_size = t.pick(48usize, 60usize);
+        let max_orbits = t.pick(14usize, 16usize);
+        let found: Vec<DS> = bases
+            .par_iter()
+            .flat_map(|x| {
+                let mut out: Vec<DS> = vec![];
+                let k = curvature(x);
+                let px = x.to_partial();
+                if k.is_positive() {
+                    // order of the orbifold group 4 / K for good orbifolds
+                    let order = Q::from(4) / k;
+                    if order.is_integer() && (*order.numer() as usize) * x.size <= max_size {
+                        if let Ok(u) = guarded(|| DS::from_dsym(&rust_dsymbols::covers::finite_universal_cover(&px))) {
+                            out.push(u.dset());
+                        }
+                    }
+                } else if k.is_zero() && (0..2).all(|i| (1..=x.size).all(|d| x.m(i, d) >= 3)) {
+                    if let Ok(u) = guarded(|| DS::from_dsym(&rust_dsymbols::delaney2d::toroidal_cover(&px))) {
+                        out.push(u.dset());
+                    }
+                } else if x.size >= 6 {
+                    if let Ok(cs) = guarded(|| rust_dsymbols::covers::covers(&px, 3).iter().map(|c| DS::from_dsym(c).dset()).collect::<Vec<_>>()) {
+                        out.extend(cs.into_iter().take(6));
+                    }
+                }
+                out.into_iter().filter(|d| d.size >= 16 && d.size <= max_size && d.ops_are_involutions() && d.is_connected() && d.commutes() && orbit_reps(d).len() <= max_orbits).collect::<Vec<_>>()
+            })
+            .collect();
+        let mut by_code: BTreeMap<Vec<usize>, DS> = BTreeMap::new();
+        for d in found {
+            by_code.entry(canonical_code(&d, false)).or_insert(d);
+        }
+        let mut cases: Vec<SetCase> = by_code.into_values().map(SetCase).collect();
+        cases.sort_by_key(|c| std::cmp::Reverse(c.0.size));
+        let nc = cases.len();
+        let spheres = cases.iter().filter(|c| { let d = &c.0; let loopless = (0..=2).all(|i| (1..=d.size).all(|e| d.op[i][e] != e)); loopless && two_colouring(d).is_some() }).count();
+        ctx.note(format!("cover-dsets: {} pairwise non-isomorphic D-sets with 16..={} chambers and at most {} orbits ({} of them loopless and orientable: maps on closed orientable surfaces)", nc, max_size, max_orbits, spheres));
+        ctx.run_par(&SUB_SET, cases, None);
+    }
     ctx.layer("random");
     ctx.run_prop(
         &SUB_SET,
